@@ -12,14 +12,22 @@
 (* Per-request environment choices (made when the step happens):           *)
 (*   rq[i].close   the request asks to close (Connection: close / HTTP/1.0)*)
 (*   rqb[i]        request-modifier behaviour: pass | warn | skip | hijack *)
-(*   rsb[i]        response-modifier behaviour: pass | warn | hijack       *)
+(*                 | hijackerr (hijacks and returns an error as well)      *)
+(*   rsb[i]        response-modifier behaviour: pass | warn | hijack |     *)
+(*                 hijackerr                                               *)
 (*   ores[i]       what the origin does:                                   *)
 (*                   ok     a complete response (.close = it asks to close)*)
 (*                   refuse dial refused / garbage / closed before a whole *)
 (*                          response head was sent  -> proxy answers 502   *)
 (*                   trunc  closed after the head, inside the body         *)
 (* Proxy-side state:  ps in idle, reqmod, upstream, resmod, decide, write, *)
-(* closed, hijacked.                                                       *)
+(* tunnel, closed, hijacked.                                               *)
+(* The first request may be a CONNECT (rq[1].connect): it passes through   *)
+(* both modifiers like any exchange (proxy.go:298-440); without MITM the   *)
+(* proxy dials the target and then relays bytes blindly (state tunnel)     *)
+(* until either side ends; with MITM it answers 200 itself and goes on     *)
+(* serving requests decrypted from the same connection, in the same        *)
+(* session (proxy.go:308-371).                                             *)
 (*                                                                         *)
 (* Properties C01 (relay one-to-one in order, keep-alive / close rule),    *)
 (* C02 (modifier discipline, contexts, hijack), C03 (faults become 502 or  *)
@@ -32,6 +40,7 @@ CONSTANTS MaxReq,              \* requests per connection
           Faults,              \* TRUE: origin faults are explored
           Mods,                \* TRUE: modifier behaviours other than pass are explored
           Shutdown,            \* TRUE: the proxy may be asked to shut down at any point
+          ConnectMode,         \* "none" | "blind" | "mitm": what a CONNECT as first request leads to
           IgnoreWriteError     \* deviation: proxy.go:570-583 keeps the connection after a
                                \*   response that failed half-way (only ErrForceClose closes)
 
@@ -57,6 +66,9 @@ Ids == 1..MaxReq
 Resp(i, k, cl, w) == [t |-> "resp", id |-> i, k |-> k, close |-> cl, warn |-> w]  \* k: ok | 502 | trunc | skip200
 EOFItem == [t |-> "eof", id |-> 0, k |-> "", close |-> FALSE, warn |-> FALSE]
 
+\* the answer to request 1 has reached the client
+Answered1 == \E j \in DOMAIN crecv : crecv[j].t = "resp" /\ crecv[j].id = 1
+
 Init == /\ sent = 0 /\ rq = <<>> /\ c2p = <<>> /\ chalf = FALSE
         /\ ps = "idle" /\ cur = 0 /\ rqb = [i \in {} |-> ""] /\ rsb = [i \in {} |-> ""]
         /\ ores = [i \in {} |-> ""] /\ originLog = <<>> /\ mark = FALSE
@@ -65,8 +77,11 @@ Init == /\ sent = 0 /\ rq = <<>> /\ c2p = <<>> /\ chalf = FALSE
 
 ---------------------------------------------------------------------------
 \* Client
-ClientSend(cl) == /\ sent < MaxReq /\ ~chalf
-                  /\ sent' = sent + 1 /\ rq' = Append(rq, [close |-> cl])
+ClientSend(cl, cn) ==
+                  /\ sent < MaxReq /\ ~chalf
+                  /\ cn => (ConnectMode # "none" /\ sent = 0 /\ ~cl)
+                  /\ (sent > 0 /\ rq[1].connect) => Answered1     \* a client speaks inside the tunnel only once it is established
+                  /\ sent' = sent + 1 /\ rq' = Append(rq, [close |-> cl, connect |-> cn])
                   /\ c2p' = Append(c2p, sent + 1)
                   /\ UNCHANGED <<chalf, ps, cur, rqb, rsb, ores, originLog, mark, p2c, crecv, ctxLive, rqRan, rsRan, closing, hjDone>>
 
@@ -90,15 +105,19 @@ ProxyReadEOF == /\ ps = "idle" /\ c2p = <<>> /\ chalf /\ CloseConn
 ProxyReadClosing == /\ ps = "idle" /\ closing /\ CloseConn
                     /\ UNCHANGED <<sent, rq, c2p, chalf, rqb, rsb, ores, originLog, mark, crecv, ctxLive, rqRan, rsRan, closing, hjDone>>
 
-ReqBehs == IF Mods THEN {"pass", "warn", "skip", "hijack"} ELSE {"pass"}
-ResBehs == IF Mods THEN {"pass", "warn", "hijack"} ELSE {"pass"}
+Hj == {"hijack", "hijackerr"}     \* hijackerr: the modifier hijacks the session and also returns an error
+ReqBehs == IF Mods THEN {"pass", "warn", "skip"} \cup Hj ELSE {"pass"}
+ResBehs == IF Mods THEN {"pass", "warn"} \cup Hj ELSE {"pass"}
 
 \* proxy.go:494-501
 ReqMod(b) == /\ ps = "reqmod" /\ b \in ReqBehs
              /\ rqb' = cur :> b @@ rqb /\ rqRan' = [rqRan EXCEPT ![cur] = @ + 1]
-             /\ ps' = CASE b = "hijack" -> "hijacked" [] b = "skip" -> "resmod" [] OTHER -> "upstream"
-             /\ ores' = IF b = "skip" THEN cur :> [k |-> "skip200", close |-> FALSE] @@ ores ELSE ores
-             /\ ctxLive' = IF b = "hijack" THEN ctxLive \ {cur} ELSE ctxLive   \* handle returns: deferred unlink
+             /\ ps' = CASE b \in Hj -> "hijacked"
+                        [] b = "skip" /\ ~rq[cur].connect -> "resmod"
+                        [] rq[cur].connect -> "dial"
+                        [] OTHER -> "upstream"
+             /\ ores' = IF b = "skip" /\ ~rq[cur].connect THEN cur :> [k |-> "skip200", close |-> FALSE] @@ ores ELSE ores
+             /\ ctxLive' = IF b \in Hj THEN ctxLive \ {cur, 1} ELSE ctxLive   \* handle returns: deferred unlink
              /\ UNCHANGED <<sent, rq, c2p, chalf, cur, rsb, originLog, mark, p2c, crecv, rsRan, closing, hjDone>>
 
 OriginKinds == IF Faults THEN {"ok", "refuse", "trunc"} ELSE {"ok"}
@@ -114,16 +133,25 @@ RoundTripReached == /\ ps = "upstream" /\ Faults
                     /\ originLog' = Append(originLog, cur) /\ ps' = "resmod"
                     /\ UNCHANGED <<sent, rq, c2p, chalf, cur, rqb, rsb, mark, p2c, crecv, ctxLive, rqRan, rsRan, closing, hjDone>>
 
+\* proxy.go:308-311 (MITM: the proxy answers 200 itself) and 373-398 (blind: dial the target)
+ConnectDial(ok) == /\ ps = "dial" /\ (ConnectMode = "mitm" => ok)
+                   /\ ores' = cur :> [k |-> IF ok THEN "connect200" ELSE "502", close |-> FALSE] @@ ores
+                   /\ ps' = "resmod"
+                   /\ UNCHANGED <<sent, rq, c2p, chalf, cur, rqb, rsb, originLog, mark, p2c, crecv, ctxLive, rqRan, rsRan, closing, hjDone>>
+\* proxy.go:421-440: the blind tunnel ends when both copy directions are done
+TunnelEnd == /\ ps = "tunnel" /\ CloseConn
+             /\ UNCHANGED <<sent, rq, c2p, chalf, rqb, rsb, ores, originLog, mark, crecv, ctxLive, rqRan, rsRan, closing, hjDone>>
+
 \* proxy.go:515-522
 ResMod(b) == /\ ps = "resmod" /\ b \in ResBehs
              /\ rsb' = cur :> b @@ rsb /\ rsRan' = [rsRan EXCEPT ![cur] = @ + 1]
-             /\ ps' = IF b = "hijack" THEN "hijacked" ELSE "decide"
-             /\ ctxLive' = IF b = "hijack" THEN ctxLive \ {cur} ELSE ctxLive
+             /\ ps' = IF b \in Hj THEN "hijacked" ELSE "decide"
+             /\ ctxLive' = IF b \in Hj THEN ctxLive \ {cur, 1} ELSE ctxLive
              /\ UNCHANGED <<sent, rq, c2p, chalf, cur, rqb, ores, originLog, mark, p2c, crecv, rqRan, closing, hjDone>>
 
 \* proxy.go:524-529
 Decide == /\ ps = "decide"
-          /\ mark' = (rq[cur].close \/ ores[cur].close \/ closing)
+          /\ mark' = (~rq[cur].connect /\ (rq[cur].close \/ ores[cur].close \/ closing))
           /\ ps' = "write"
           /\ UNCHANGED <<sent, rq, c2p, chalf, cur, rqb, rsb, ores, originLog, p2c, crecv, ctxLive, rqRan, rsRan, closing, hjDone>>
 
@@ -135,8 +163,12 @@ Write == /\ ps = "write"
                 mustClose == mark \/ (ores[cur].k = "trunc" /\ ~IgnoreWriteError)
             IN IF mustClose
                THEN /\ p2c' = p2c \o <<item, EOFItem>> /\ ps' = "closed" /\ cur' = 0
-               ELSE /\ p2c' = Append(p2c, item) /\ ps' = "idle" /\ cur' = 0
-         /\ ctxLive' = ctxLive \ {cur}                                 \* deferred unlink, proxy.go:459
+               ELSE /\ p2c' = Append(p2c, item) /\ cur' = 0
+                    /\ ps' = IF ores[cur].k = "connect200" /\ ConnectMode = "blind" THEN "tunnel" ELSE "idle"
+         \* deferred unlink, proxy.go:459.  With MITM the CONNECT exchange is still on the stack
+         \* while the first decrypted request is served (recursive handle, proxy.go:364): its link
+         \* is dropped together with that request's.
+         /\ ctxLive' = IF ores[cur].k = "connect200" /\ ConnectMode = "mitm" THEN ctxLive ELSE ctxLive \ {cur, 1}
          /\ mark' = FALSE
          /\ UNCHANGED <<sent, rq, c2p, chalf, rqb, rsb, ores, originLog, crecv, rqRan, rsRan, closing, hjDone>>
 
@@ -148,12 +180,12 @@ HijackerDone == /\ ps = "hijacked" /\ ~hjDone /\ hjDone' = TRUE
 CloseCalled == /\ Shutdown /\ ~closing /\ closing' = TRUE
                /\ UNCHANGED <<sent, rq, c2p, chalf, ps, cur, rqb, rsb, ores, originLog, mark, p2c, crecv, ctxLive, rqRan, rsRan, hjDone>>
 
-ProxyStep == ProxyRead \/ ProxyReadEOF \/ ProxyReadClosing
+ProxyStep == ProxyRead \/ ProxyReadEOF \/ ProxyReadClosing \/ (\E ok \in BOOLEAN : ConnectDial(ok)) \/ TunnelEnd
              \/ (\E b \in ReqBehs : ReqMod(b))
              \/ (\E k \in OriginKinds, cl \in BOOLEAN : RoundTrip(k, cl)) \/ RoundTripReached
              \/ (\E b \in ResBehs : ResMod(b))
              \/ Decide \/ Write \/ HijackerDone
-Next == (\E cl \in BOOLEAN : ClientSend(cl)) \/ ClientFinish \/ ClientRecv \/ ProxyStep \/ CloseCalled
+Next == (\E cl, cn \in BOOLEAN : ClientSend(cl, cn)) \/ ClientFinish \/ ClientRecv \/ ProxyStep \/ CloseCalled
 Spec == Init /\ [][Next]_vars /\ WF_vars(ProxyStep) /\ WF_vars(ClientRecv)
 
 ---------------------------------------------------------------------------
@@ -171,7 +203,7 @@ CloseAfter == \A j \in DOMAIN Wire :
                  (Wire[j].t = "resp" /\ Wire[j].close) => (j < Len(Wire) /\ Wire[j + 1].t = "eof")
 NothingAfterEOF == \A j \in DOMAIN Wire : Wire[j].t = "eof" => j = Len(Wire)
 CloseHonoured == \A j \in DOMAIN Resps :
-                 (rq[Resps[j].id].close \/ ores[Resps[j].id].close) => Resps[j].close
+                 (~rq[Resps[j].id].connect /\ (rq[Resps[j].id].close \/ ores[Resps[j].id].close)) => Resps[j].close
 \* C03: bytes of a later response never follow a response that broke off
 NoDesync == \A j \in DOMAIN Wire :
                  (Wire[j].t = "resp" /\ Wire[j].k = "trunc") => (j < Len(Wire) /\ Wire[j + 1].t = "eof")
@@ -184,7 +216,8 @@ SkipMeansNoContact == \A i \in DOMAIN rqb : rqb[i] = "skip" =>
 WarnSurfaces == \A j \in DOMAIN Resps : Resps[j].warn <=>
                          (Resps[j].id \in DOMAIN rsb /\ rsb[Resps[j].id] = "warn")
 \* C02: no context survives its exchange
-NoCtxAtRest == ps \in {"idle", "closed"} => ctxLive = {}
+NoCtxAtRest == ps \in {"idle", "closed"} =>
+                 (ctxLive = {} \/ (ctxLive = {1} /\ ConnectMode = "mitm" /\ rq[1].connect /\ sent >= 1 /\ Len(Resps) <= 1))
 \* C02: after a hijack the proxy writes nothing but the close
 NoTouchAfterHijack == ps = "hijacked" => \A j \in DOMAIN Wire : Wire[j].t = "resp" => Wire[j].id < cur
 \* liveness: a request that was sent on a connection nobody asked to close gets its response
